@@ -86,6 +86,14 @@ def _check_code_shapes():
     for k, (got, want) in probes.items():
         if got != want:
             raise ValueError("regex fragment of %s changed: %r" % (k, got))
+    # the root test of Pattern.regex_pattern / Pattern.expand (Model/Pattern.v first_segment)
+    src = inspect.getsource(matcher.Pattern._first_segment)
+    for piece in ("if not self or isinstance(self[0], Star):", 'return ""', "return self[0].expand(env)"):
+        if piece not in src:
+            raise ValueError("Pattern._first_segment: %r not found" % piece)
+    for fn in (matcher.Pattern.regex_pattern, matcher.Pattern.expand):
+        if "if not os.path.isabs(self._first_segment(env)):" not in inspect.getsource(fn):
+            raise ValueError("%s: root test changed" % fn.__name__)
     src = inspect.getsource(matcher.Matcher._cache_regex)
     if 'self.pattern.regex_pattern(self.env) + "$"' not in src:
         raise ValueError("_cache_regex changed")
